@@ -74,7 +74,11 @@ pub fn c04_bound(cx: &mut Ctx) {
             if let Some(msg) = pooler_error(&s.msgs) {
                 if msg.contains("could not get connection from the pool") {
                     cx.probe("c04_checkout_refused");
-                    if !matches!(s.outcome, StepOutcome::Ready(b'I')) {
+                    // (a pipelined step holds several requests: the refusal and a later failure of
+                    // another request of the same step cannot be told apart, so only single requests are judged)
+                    let (sent_msgs, _) = proto::split_all(&s.sent);
+                    let single = sent_msgs.iter().filter(|m| m.ty == b'Q' || m.ty == b'S').count() == 1;
+                    if single && !matches!(s.outcome, StepOutcome::Ready(b'I')) {
                         cx.v("C04", "refused_client_dropped", "C04/refused_client_dropped", s.done_seq, format!("client {} step {} was refused a connection and then lost its session ({:?})", c.id, i, s.outcome));
                     }
                 }
